@@ -4,6 +4,9 @@ package otlpmetrichttp
 
 import (
 	"context"
+	"crypto/tls"
+	"net/http"
+	"net/url"
 	"time"
 
 	"go.opentelemetry.io/otel/sdk/metric/metricdata"
@@ -31,8 +34,22 @@ func vTimeoutOpts(to string) []Option {
 		return []Option{WithTimeout(30 * time.Second)}
 	case "z":
 		return []Option{WithTimeout(0)}
+	case "q":
+		return []Option{WithTimeout(80 * time.Millisecond)}
 	}
 	return nil
+}
+
+// vPathOpts: the construction path dimension (vPath: d shared transport, t TLS configuration, p proxy, b both)
+func vPathOpts() []Option {
+	var o []Option
+	if vPath == "t" || vPath == "b" {
+		o = append(o, WithTLSClientConfig(&tls.Config{}))
+	}
+	if vPath == "p" || vPath == "b" {
+		o = append(o, WithProxy(func(*http.Request) (*url.URL, error) { return nil, nil }))
+	}
+	return o
 }
 
 func vHost(host string) string {
@@ -53,10 +70,15 @@ func vNewClient(host string, gz bool, rc RetryConfig, to string) (*client, oconf
 	if gz {
 		comp = GzipCompression
 	}
-	cfg := oconf.NewHTTPConfig(asHTTPOptions(append([]Option{WithInsecure(), WithEndpoint(vHost(host)), WithRetry(rc), WithCompression(comp)}, vTimeoutOpts(to)...))...)
+	cfg := oconf.NewHTTPConfig(asHTTPOptions(append(append([]Option{WithInsecure(), WithEndpoint(vHost(host)), WithRetry(rc), WithCompression(comp)}, vTimeoutOpts(to)...), vPathOpts()...))...)
 	c, err := newClient(cfg)
 	if err != nil {
 		panic(err)
+	}
+	// a cloned transport (TLS configuration / proxy set) does not inherit the protocols registered on ourTransport: the
+	// scripted one is registered on the clone — the http.Client itself stays the one newClient built
+	if tr, ok := c.httpClient.Transport.(*http.Transport); ok && tr != ourTransport {
+		tr.RegisterProtocol("http", vDispatch{})
 	}
 	return c, cfg
 }
